@@ -20,6 +20,7 @@ os.environ.setdefault("PYTHONHASHSEED", "0")
 
 import engine  # noqa: E402
 import propdefs  # noqa: E402
+import srcref  # noqa: E402
 
 COQ = os.path.join(VERIF, "coq")
 EVID = os.environ.get("VERIF_EVIDENCE_DIR") or os.path.join(VERIF, "evidence")   # (seedtest.py redirects it)
@@ -101,7 +102,7 @@ def _file_status(pid):
 
 def hygiene():
     rc, out = sh(r"grep -rnE '\b(Admitted|admit|Axiom|Parameter|Conjecture|Unset Guard|bypass_check|type-in-type)\b' "
-                 r"--include=*.v model spec proofs props extract | grep -v '^[^:]*:[0-9]*: *(\*' || true", cwd=COQ)
+                 r"--include=*.v model spec proofs props extract pylite srcref | grep -v '^[^:]*:[0-9]*: *(\*' || true", cwd=COQ)
     return out.strip()
 
 
@@ -152,6 +153,7 @@ def main():
     if dirty:
         broken_theorems.append("hygiene: " + dirty[:300])
 
+    srcref_res = None
     known = [k for k in load_known() if k["property"] == pid]
     open_known = [k for k in known if k["status"] == "open"]
 
@@ -160,6 +162,11 @@ def main():
         res = propdefs.run_property(pid, a.tier, seed, replay=rp)
     else:
         escalate = bool(broken_theorems)
+        if pid in srcref.PROPS:
+            # translator tie (reg_access.py -> PyLite -> refinement proofs); when it is not available the tie
+            # rests on the correspondence alone, searched with the escalated budget
+            srcref_res = srcref.check()
+            escalate = escalate or srcref_res.get("status") != "proved"
         res = propdefs.run_property(pid, a.tier, seed, escalate=escalate)
 
     # ---- verdict
@@ -202,6 +209,8 @@ def main():
         rc = 1
 
     cov = dict(res["coverage"])
+    if srcref_res is not None:
+        cov["source_refinement"] = {k: v for k, v in srcref_res.items() if k != "log"}
     cov.update({
         "obligations": max(1, len(names)),
         "discharged": len(discharged) if names else 0,
@@ -213,6 +222,11 @@ def main():
         "trusted_base": propdefs.TRUSTED_BASE + prop.get("trusted_extra", []),
         "known_findings_reported": sorted(known_hits),
     })
+    if srcref_res is not None:
+        cov["trusted_base"] = cov["trusted_base"] + [
+            "translator tie for reg_access.py: harness/py2coq.py (fail-closed ast dump; drops imports/docstrings/annotations, "
+            "typing.cast(T,e) -> e, n-ary and/or nested to the right, attrs/enum class forms) and the PyLite semantics "
+            "coq/pylite/PyLite.v (tree-valued objects: no aliasing, sets of ints as duplicate-free lists)"]
     if a.tier == "thorough" and not a.replay:
         cov["coqchk"] = propdefs.coqchk(pid)
     ev = {
